@@ -1,2 +1,91 @@
-From ZC Require Import Model.Base Model.Query.
-Example C13_placeholder : True. Proof. exact I. Qed.
+(* C13 - queries carry known answers and are not needlessly repeated. Statements only.
+   Model/Query.v: QuestionHistory, generate_service_query with its bucketing, the lookup's request query and the responder's
+   history update - tied to the real functions by the correspondence check. Vocabulary: Proofs/C13_query.v (ptr_entry, asked_names,
+   suppressed_by, record_sent, request_parts, recorded, known_set, last_time). *)
+From ZC Require Import Model.Base Model.PyRec Model.Dict Model.Cache Model.Respond Model.Query Gen.Const Gen.DnsPure Proofs.C13_query.
+From Coq Require Import Permutation.
+
+(* known answers = exactly the matching cached records with more than half of their TTL left *)
+Theorem C13_known_fresh : forall c now name ty r,
+  In r (fresh_known c now name ty) <->
+  In r (get_all_by_details c name ty C_CLASS_IN) /\ p_created r + 500 * p_ttl r > now.
+Proof. exact fresh_known_In. Qed.
+
+(* a browser query asks one PTR question per type, in order, each with exactly its fresh known answers and the decided QU bit *)
+Theorem C13_known : forall c h now types qu qs h',
+  service_questions c h now types qu = (qs, h') ->
+  (exists ts, subseq ts types /\ qs = map (ptr_entry c now qu) ts) /\
+  Forall (fun e => In (p_name (fst e)) types /\ p_type_ (fst e) = C_TYPE_PTR /\ DNSEntry_unique (fst e) = qu /\
+                   snd e = fresh_known c now (p_name (fst e)) C_TYPE_PTR) qs.
+Proof. exact known_exact. Qed.
+
+(* a QM question is omitted iff the same question was asked (or heard as responder) within the previous 999 ms with a known-answer
+   list that contains nothing this instance does not know itself *)
+Theorem C13_suppress : forall c now types h qs h' t,
+  NoDup (map lower types) -> service_questions c h now types false = (qs, h') -> In t types ->
+  (~ In t (asked_names qs) <-> suppressed_by h now (mkq t C_TYPE_PTR false) (fresh_known c now t C_TYPE_PTR)).
+Proof. exact suppress_iff. Qed.
+
+(* QU questions are never omitted and never recorded *)
+Theorem C13_qu_never : forall c now types h qs h',
+  service_questions c h now types true = (qs, h') -> qs = map (ptr_entry c now true) types /\ h' = h.
+Proof. exact qu_never. Qed.
+
+(* every question travels in exactly one outgoing message together with all of its known answers, stamped with the query time (so that the
+   remaining TTL is written); messages with several questions stay within 1448 bytes of estimated payload; no message is empty.
+   When a single question's known answers do not fit, DNSOutgoing splits it with the TC bit: C14_headers / C14_partition. *)
+Theorem C13_split : forall c h now types multicast qtype msgs h',
+  generate_service_query c h now types multicast qtype = (msgs, h') ->
+  let qs := fst (service_questions c h now types (qu_decision multicast qtype)) in
+  h' = snd (service_questions c h now types (qu_decision multicast qtype)) /\
+  Permutation (flat_map qm_qs msgs) (map fst qs) /\
+  (forall q known, In (q, known) qs -> exists m, In m msgs /\ In q (qm_qs m) /\ incl known (qm_known m) /\ qm_time m = now) /\
+  (forall m, In m msgs -> qm_qs m <> []).
+Proof. exact bucketing_msgs. Qed.
+
+(* the history only ever learns this instance's own QM questions ... *)
+Theorem C13_history_own : forall c h now types qs h',
+  service_questions c h now types false = (qs, h') ->
+  h' = record_sent now h qs /\
+  (forall q, hist_get h' q = match find (fun e => gen_eq (fst e) q) (rev qs) with
+                             | Some e => Some (now, snd e) | None => hist_get h q end) /\
+  (forall q, (forall e, In e qs -> gen_eq (fst e) q = false) -> hist_get h' q = hist_get h q) /\
+  (forall e, In e qs -> exists known, hist_get h' (fst e) = Some (now, known)).
+Proof. exact history_after. Qed.
+
+(* ... and the QM questions it answered as a responder *)
+Theorem C13_history_responder : forall g h msgs q,
+  hist_get (respond_history_update g h msgs) q <> hist_get h q ->
+  exists q', In q' (flat_map qm_questions msgs) /\ gen_eq q' q = true /\ DNSEntry_unique q' = false /\
+             get_strategies g q' <> [] /\ hist_get (respond_history_update g h msgs) q = Some (last_time msgs, known_set msgs).
+Proof. exact responder_history_only. Qed.
+
+(* a lookup asks SRV / TXT only when it has no fresh answer cached, A / AAAA always, with their known answers *)
+Theorem C13_lookup : forall c h now name server qu m h',
+  generate_request_query c h now name server qu = (m, h') ->
+  let suppressed n ty := suppressed_by h now (mkq n ty false) (fresh_known c now n ty) in
+  (In (mkq name C_TYPE_SRV qu) (qm_qs m) <-> fresh_known c now name C_TYPE_SRV = [] /\ (qu = true \/ ~ suppressed name C_TYPE_SRV)) /\
+  (In (mkq name C_TYPE_TXT qu) (qm_qs m) <-> fresh_known c now name C_TYPE_TXT = [] /\ (qu = true \/ ~ suppressed name C_TYPE_TXT)) /\
+  (In (mkq server C_TYPE_A qu) (qm_qs m)    <-> qu = true \/ ~ suppressed server C_TYPE_A) /\
+  (In (mkq server C_TYPE_AAAA qu) (qm_qs m) <-> qu = true \/ ~ suppressed server C_TYPE_AAAA) /\
+  (In (mkq server C_TYPE_A qu) (qm_qs m)    -> incl (fresh_known c now server C_TYPE_A) (qm_known m)) /\
+  (In (mkq server C_TYPE_AAAA qu) (qm_qs m) -> incl (fresh_known c now server C_TYPE_AAAA) (qm_known m)) /\
+  (forall q, In q (qm_qs m) -> q = mkq name C_TYPE_SRV qu \/ q = mkq name C_TYPE_TXT qu \/
+                               q = mkq server C_TYPE_A qu \/ q = mkq server C_TYPE_AAAA qu) /\
+  (qu = true -> h' = h) /\ (qu = false -> h' = record_sent now h (request_parts c h now name server false)) /\
+  qm_time m = now.
+Proof. exact request_query. Qed.
+
+Theorem C13_history_expiry : forall h now e, In e (hist_expire h now) <-> In e h /\ now - fst (snd e) <= 999.
+Proof. exact hist_expire_spec. Qed.
+
+Print Assumptions C13_known_fresh.
+Print Assumptions C13_known.
+Print Assumptions C13_suppress.
+Print Assumptions C13_qu_never.
+Print Assumptions C13_split.
+Print Assumptions C13_history_own.
+Print Assumptions C13_history_responder.
+Print Assumptions C13_lookup.
+Print Assumptions C13_history_expiry.
+Print Assumptions bucketing_bytes.
